@@ -1,0 +1,53 @@
+//! Verification hooks (compiled only with `--cfg launchpad_verif`).
+//! Recording / budgeting only: no contract value is computed here.
+extern crate std;
+
+use std::cell::RefCell;
+use std::vec::Vec;
+
+pub enum RngEvent {
+    /// `Random::default()` was entered.
+    Fresh,
+    /// `next_usize` was entered with this seed / index and returned `word`.
+    Draw {
+        seed: Vec<u8>,
+        index: usize,
+        word: usize,
+    },
+}
+
+std::thread_local! {
+    static BUDGET: RefCell<Option<u64>> = RefCell::new(None);
+    static RNG_LOG: RefCell<Vec<RngEvent>> = RefCell::new(Vec::new());
+}
+
+/// `None`: original gas test decides. `Some(b)`: the next `b` continue-checks pass, then fail.
+pub fn set_budget(budget: Option<u64>) {
+    BUDGET.with(|b| *b.borrow_mut() = budget);
+}
+
+pub fn budget_tick() -> Option<bool> {
+    BUDGET.with(|b| {
+        let mut b = b.borrow_mut();
+        match *b {
+            None => None,
+            Some(0) => Some(false),
+            Some(n) => {
+                *b = Some(n - 1);
+                Some(true)
+            }
+        }
+    })
+}
+
+pub fn note_fresh() {
+    RNG_LOG.with(|l| l.borrow_mut().push(RngEvent::Fresh));
+}
+
+pub fn note_draw(seed: Vec<u8>, index: usize, word: usize) {
+    RNG_LOG.with(|l| l.borrow_mut().push(RngEvent::Draw { seed, index, word }));
+}
+
+pub fn take_rng_log() -> Vec<RngEvent> {
+    RNG_LOG.with(|l| std::mem::take(&mut *l.borrow_mut()))
+}
